@@ -103,7 +103,8 @@ func runC08(cx *Ctx) {
 		"R3 (character set): on the paths where the Unicode test is true every name payload is produced by utf16.EncodeUTF16LE of the right parameter (optionally upper-cased), on the other paths by a []byte(string) conversion and never by EncodeUTF16LE — directly or in a shared encoding helper whose own branches on the test are followed; NEGOTIATE sets exactly UNICODE resp. OEM on those paths (also when the flags are assembled by a helper); AUTHENTICATE tests NTLMSSP_NEGOTIATE_UNICODE on challenge.NegotiateFlags and echoes that same field. " +
 		"R4 (parsers): ParseChallengeMessage moves the MS-NLMP CHALLENGE fields (signature 0..8 compared with NTLM_SIGNATURE by bytes.Equal / bytes.HasPrefix / string comparison, type 8 = NTLM_CHALLENGE enforced, TargetNameFields 12, flags 20, server challenge 24..32, reserved 32..40, TargetInfoFields 40, version 48..56) little-endian into the struct it returns; each payload is data[Offset : Offset+Len] with both taken from that descriptor — inline or in a payload helper (up to two levels, integer accessors included, nested windows composed), read at its call site — and the slice proved in bounds by E1 from the dominating guard (so the guard tested the very values sliced); ParseTargetInfo walks AvId 2LE, AvLen 2LE, value[AvLen], advances by 4+AvLen (an integer offset or a re-sliced tail), stores the value under AvId and stops at MsvAvEOL. " +
 		"R5 (SPNEGO framing): encodeLength returns one byte for < 128 and otherwise ceil(bits/8) bytes most-significant first (octet count by a shift loop, (bits.Len+7)/8 or a ladder of range tests proved by E1; octets by a fill loop or the tail of an 8-byte big-endian image); CreateNegTokenInit/Resp — directly or through a shared framing helper — emit 0x60, then the short form or 0x80|n followed by encodeLength's n bytes (alternatively the marker iff >= 128 followed on both paths by encodeLength, or a length helper returning those alternatives), of exactly the combined length of the two DER blobs that follow; ParseNegTokenResp/ExtractNTLMToken — directly or through a header helper whose error is checked — check 0x60 and skip 2+(b1&0x7F) bytes when b1&0x80 is set, else 2. " +
-		"IDIOMS: a builder rewritten into a shape outside those lists (a loop whose trip count is not a constant of its own test or that is left from its body, writes that overlap or do not tile a buffer, a helper with several returns of different widths, an octet count of another form) is reported UNDECIDED, never passed. " +
+		"ALSO READ: a running payload offset kept in a captured variable or a cursor struct and handed out by a closure / method (the cell's operations are replayed symbolically in dominance order), an offset table filled by a counted loop and read back by constant index, a decoded descriptor carried in a struct value or returned as several results (a field load denotes the one value stored there; helper results are read in their activation), a message accumulated by a local writer object with append-only methods, guards written as a counted loop over a table of the payloads or moved into a validating helper (error or bool verdict, read at its call site), NTLM_SIGNATURE as a byte literal, the Unicode test in a predicate, the v1/v2 response dispatch in a helper. " +
+		"COMPLETENESS BEFORE VERDICT: a violation is reported only for something observed in a completely extracted flow (a wrong byte order, offset, width, constant, producer, a swapped field, overlapping / truncated / non-tiling writes, a header of variable size, a guard read in full that is too weak or skips a row, a conversion whose operand has no bound although nothing that could establish one was left unread). When the data a rule reasons about is handed to code that was not followed (an in-module function or closure that can reject it, a cursor object, a callback), or has a shape that is not read (a loop that is not counted, several success returns, an unresolved term in an offset), the entity is recorded as OK 'NOT DECIDED — <what escaped and where>' with a run note, its instances are credited to the floors, and no violation is raised; a missing anchor, a type-check failure or a panic of the checker still fails. " +
 		"NOT DECIDED — the DER produced/consumed by encoding/asn1 (so the SPNEGO round trip for all token lengths, including the empty token, is not established), that a parsed CHALLENGE equals what a peer sent beyond the byte-lane map above, the numeric content of the responses (C02) and of EncodeUTF16LE (C01), the OEM code page, and receivers' treatment of zero-length fields."
 	r.Assumptions = append(r.Assumptions,
 		"go/ssa of x/tools v0.50.0 and go/types are trusted; encoding/binary PutUintN/UintN/AppendUintN write/read N/8 bytes in the stated order; append(s, t...) yields s followed by t; bytes.Buffer.Write* append",
@@ -222,6 +223,8 @@ func (c *c08) signatureGlobal() *ssa.Global {
 	return g
 }
 
+var c08ReadOnlyDepth int
+
 // c08ReadOnlyUses: slice value v is only read (append source, comparison, copy source, len).
 func c08ReadOnlyUses(v ssa.Value) string {
 	if v.Referrers() == nil {
@@ -249,8 +252,30 @@ func c08ReadOnlyUses(v ssa.Value) string {
 			}
 			if f := cc.StaticCallee(); f != nil {
 				switch f.String() {
-				case "bytes.Equal", "bytes.HasPrefix", "bytes.Compare", "(*bytes.Buffer).Write":
+				case "bytes.Equal", "bytes.HasPrefix", "bytes.Compare", "(*bytes.Buffer).Write", "(*strings.Builder).Write", "bytes.Clone", "slices.Clone", "bytes.Contains", "bytes.Index":
 					continue
+				}
+				// a function with a body: what it does with the parameter the slice is bound to
+				if f.Blocks != nil && !cc.IsInvoke() && c08ReadOnlyDepth < 2 {
+					ok := true
+					for i, a := range cc.Args {
+						if a != v {
+							continue
+						}
+						if i >= len(f.Params) {
+							ok = false
+							break
+						}
+						c08ReadOnlyDepth++
+						why := c08ReadOnlyUses(f.Params[i])
+						c08ReadOnlyDepth--
+						if why != "" {
+							ok = false
+						}
+					}
+					if ok {
+						continue
+					}
 				}
 			}
 			return "is passed to a call that may write it"
@@ -406,8 +431,23 @@ func (c *c08) builder1(spec c08Msg, sig *ssa.Global, fn *ssa.Function, name stri
 		c.notDecided("R1.layout", name, pos, "the returned byte sequence cannot be read off: "+why+" (layout so far: "+codec.RenderPieces(pieces)+")")
 		return nil
 	}
-	r.OK("R1.layout", name, c.pos(fn.Pos()), codec.RenderPieces(pieces))
 	r.Extra["layout "+spec.fn] = codec.RenderPieces(pieces)
+	// the fixed part (or all of it) hidden in a run whose content was not read off
+	// for a stated reason: one NOT DECIDED for the builder instead of one per field
+	for _, pl := range placed {
+		k, isK := c08FormConst(pl.off)
+		if !isK || k >= int64(spec.header) {
+			break
+		}
+		if pl.p.Width < 0 {
+			if pl.p.Kind == "bytes" && pl.p.Why != "" {
+				c.notDecided("R1.layout", name, c.ipos(pl.p.At), fmt.Sprintf("from offset %d on the message is the run %s, whose content is not read off: %s", k, pl.p.String(), pl.p.Why))
+				return nil
+			}
+			break
+		}
+	}
+	r.OK("R1.layout", name, c.pos(fn.Pos()), codec.RenderPieces(pieces))
 
 	// split into the constant-offset fixed part and the payload
 	fixed := map[int64]*codec.Piece{}
